@@ -20,6 +20,15 @@ What is translated (name in the generated module  <-  source):
   solve_for_strike      <- solve_for_strike             market/volatility/fx_vol_surface.py (the `newton_secant(g, …)` result is the
                                                                                             parameter `k_solver`: solver = parameter
                                                                                             with a postcondition, DESIGN §3.1)
+  fx_vanilla_gamma      <- FXVanillaOption.gamma        products/fx/fx_vanilla_option.py   (slice; inline closed form with `nprime`)
+  fx_vanilla_vega       <- FXVanillaOption.vega                                            (slice)
+  fx_vanilla_theta      <- FXVanillaOption.theta                                           (slice; `N`, `nprime`)
+  fx_digital_value      <- FXDigitalOption.value        products/fx/fx_digital_option.py   (slice; `n_vect`)
+
+In the three Greek methods the guard `if np.any(volatility) < 0.0: raise …` is DEAD code (`np.any(x)` is a bool, a bool is
+never < 0.0): it is dropped by exact text (a change of that text makes the module Untranslatable); a negative volatility
+is therefore NOT rejected by gamma / vega / theta — it is clamped to 1e-10 like 0 (recorded in notes/C10.md).
+In FXP the density `nprime` is the parameter `Npdf` (third section variable; definitions that do not use it are unchanged).
 
 Dictionaries returned by the methods become tuples of their numeric entries in the order of `*_KEYS` below
 (the key list of the source must equal the list here, otherwise the module is Untranslatable); the two
@@ -51,8 +60,9 @@ FWD_PY = 'financepy/products/fx/fx_forward.py'
 VAN_PY = 'financepy/products/fx/fx_vanilla_option.py'
 CONV_PY = 'financepy/products/fx/fx_mkt_conventions.py'
 SURF_PY = 'financepy/market/volatility/fx_vol_surface.py'
+DIG_PY = 'financepy/products/fx/fx_digital_option.py'
 
-SOURCES = [FWD_PY, VAN_PY, CONV_PY, SURF_PY, MATH_PY, GT_PY, GV_PY, BSA_PY]
+SOURCES = [FWD_PY, VAN_PY, CONV_PY, SURF_PY, MATH_PY, GT_PY, GV_PY, BSA_PY, DIG_PY]
 
 VALUE_KEYS = ['v', 'cash_dom', 'cash_for', 'pips_dom', 'pips_for', 'pct_dom', 'pct_for', 'not_dom', 'not_for']
 FWD_VALUE_KEYS = ['value', 'cash_dom', 'cash_for', 'not_dom', 'not_for']
@@ -102,6 +112,17 @@ class _Specialise(ast.NodeTransformer):
         if len(vals) == 1:
             return vals[0]
         return ast.BoolOp(op=n.op, values=vals)
+
+
+class _StripAll(ast.NodeTransformer):
+    """`np.all(<comparison>)` on the scalar inputs of the kernels is the comparison itself (as `np.any`, which
+    `registry.exotics._StripAny` handles the same way)."""
+
+    def visit_Call(self, n):
+        self.generic_visit(n)
+        if _dotted(n.func) == 'np.all' and len(n.args) == 1 and not n.keywords and isinstance(n.args[0], ast.Compare):
+            return n.args[0]
+        return n
 
 
 def _fold_const_ifs(stmts):
@@ -329,6 +350,12 @@ def build_fx(kind):
             sp = FuncSpec(nm, ln, seven, NUM)
             sp.fallible = True          # both end in `else: raise FinError(...)` (checked by Props/C10a: shape lemmas)
             tr.funcs[nm] = sp
+        # the normal cdf / density called directly by gamma / vega / theta / the digital: the code's own functions of
+        # utils/math.py as generated in Gen/BS*, or the parameters Ncdf / Npdf in FXP
+        for nm, par in (('N', 'Ncdf'), ('n_vect', 'Ncdf'), ('nprime', 'Npdf')):
+            sp = FuncSpec(nm, par if kind == 'param' else f'{bsns}.{nm}', [('x', NUM)], NUM)
+            sp.fallible = False
+            tr.funcs[nm] = sp
 
         def emit(fnode, spec, force_fallible=None):
             txt = tr.function(fnode, spec, force_fallible=force_fallible)
@@ -337,7 +364,7 @@ def build_fx(kind):
             callspec = spec
             if kind == 'param':
                 # section variables used by a definition are its leading explicit arguments at later call sites
-                uses = [v for v in ('Ncdf', 'Ninv') if re.search(r'\b' + v + r'\b', txt.split(':=', 1)[1])]
+                uses = [v for v in ('Ncdf', 'Ninv', 'Npdf') if re.search(r'\b' + v + r'\b', txt.split(':=', 1)[1])]
                 if uses:
                     callspec = copy.copy(spec)
                     callspec.lean_name = spec.lean_name + ''.join(' ' + u for u in uses)
@@ -346,7 +373,7 @@ def build_fx(kind):
             return spec
 
         def prep(f, keys=None, what=''):
-            f = _Specialise(P).visit(copy.deepcopy(f))
+            f = _StripAll().visit(_Specialise(P).visit(copy.deepcopy(f)))
             f.body = _cut_tree_branches(_fold_const_ifs(f.body), P)
             if keys is not None:
                 f.body = _dict_return_to_tuple(f.body, keys, P, what)
@@ -456,7 +483,38 @@ def build_fx(kind):
                          doc='k_solver = the value returned by newton_secant(g, x0=spot, args=…, tol=1e-7, maxiter=50) '
                              '(used by the two premium-adjusted conventions only)'))
 
-        variables = 'variable (Ncdf Ninv : ℝ → ℝ)' if kind == 'param' else ''
+
+        # ---- FXVanillaOption.gamma / vega / theta (inline closed forms; one time t = (expiry - value date)/365)
+        tree = S.parse(VAN_PY)
+        DEAD_VOL_GUARD = r"if np\.any\((volatility|vol)\) < 0\.0:\n\s+raise FinError\('Volatility should not be negative\.'\)"
+        t_drops = {r'dom_df = domestic_curve\.df_t\(t\)': ('dom_df',), r'for_df = foreign_curve\.df_t\(t\)': ('for_df',)}
+        for meth, lname, attrs, extra in (
+                ('gamma', 'fx_vanilla_gamma', ('self.strike_fx_rate', 'model.volatility'), [('strike_fx_rate', NUM), ('vol', NUM)]),
+                ('vega', 'fx_vanilla_vega', ('self.strike_fx_rate', 'model.volatility'), [('strike_fx_rate', NUM), ('vol', NUM)]),
+                ('theta', 'fx_vanilla_theta', ('self.strike_fx_rate', 'model.volatility', 'self.option_type'),
+                 [('strike_fx_rate', NUM), ('vol', NUM), ('option_type', INT)])):
+            f = method_slice(P, tree, 'FXVanillaOption.' + meth, START_SPOT, [YEARFRAC_FWD], dict(t_drops))
+            f = rewrite(f, [DEAD_VOL_GUARD], {}, P, 'FXVanillaOption.' + meth)
+            f = prep(f)
+            emit(f, FuncSpec('FXVanillaOption.' + meth, lname, [('t', NUM), ('spot_fx_rate', NUM), ('dom_df', NUM), ('for_df', NUM)], NUM,
+                             attr_map={k: opt_attrs[k] for k in attrs}, extra_params=extra,
+                             doc='t = (expiry - value date)/365 as computed by the method; dom_df / for_df = curve df_t at '
+                                 'max(t, 1e-10); BlackScholes model; the dead guard `np.any(vol) < 0.0` is dropped'),
+                 force_fallible=True)
+
+        # ---- FXDigitalOption.value
+        dtree = S.parse(DIG_PY)
+        f = method_slice(P, dtree, 'FXDigitalOption.value', START_SPOT, [YEARFRAC_OPT], dict(df_drops))
+        f = prep(f)
+        emit(f, FuncSpec('FXDigitalOption.value', 'fx_digital_value',
+                         [('t_del', NUM), ('t_exp', NUM), ('spot_fx_rate', NUM), ('dom_df', NUM), ('for_df', NUM)], NUM,
+                         attr_map=opt_attrs,
+                         extra_params=[('strike_fx_rate', NUM), ('notional', NUM), ('vol', NUM), ('option_type', INT),
+                                       ('prem_currency', INT), ('dom_name', INT), ('for_name', INT)],
+                         doc='option_type 5 = DIGITAL_CALL, 6 = DIGITAL_PUT; t_del / t_exp / dfs as for fx_vanilla_value'),
+             force_fallible=True)
+
+        variables = 'variable (Ncdf Ninv Npdf : ℝ → ℝ)' if kind == 'param' else ''
         body = prelude(ns, dialect, (f'FinVerif.Gen.{bsns}',), variables=variables) + '\n'.join(out) + f'\nend FinVerif.Gen.{ns}\n'
         return SOURCES, body
     return build
